@@ -146,6 +146,8 @@ class Translator:
                 return ("option", self.conv_type(args[0], what, impl))
             if name == "Result" and len(args) >= 1:
                 return ("result", self.conv_type(args[0], what, impl))
+            if name.startswith("Self::") and impl is not None and (impl, name[6:]) in self.items.assoc:
+                return self.conv_type(parse_type(self.items.assoc[(impl, name[6:])], what, self.items), what, impl)
             if name == "Self":
                 if impl is None:
                     raise ShapeError(f"{what}: `Self` type outside an impl")
@@ -474,6 +476,9 @@ class ExprMixin:
                     raise ShapeError(f"{ctx.what}: comparison of {self.show(ta)} with {self.show(tb)}")
             elif ta[0] == "enum" and tb == ta and op in ("==", "!="):
                 pass
+            elif ta[0] == "option" and tb[0] == "option" and op in ("==", "!=") and \
+                    self.res(ta[1])[0] in ("int", "usize", "nt", "var") and self.res(tb[1])[0] in ("int", "usize", "nt", "var"):
+                self.unify(ta, tb, ctx.what)
             elif ta == ("bool",) and tb == ("bool",) and op in ("==", "!="):
                 a, b = V(self.as_bool(a, ctx), ta), V(self.as_bool(b, ctx), tb)
             elif self.is_int(ta) and self.is_int(tb):
@@ -573,7 +578,7 @@ class ExprMixin:
 
     def tr_field(self, e, env, ctx):
         _, base, name = e
-        if base == ("path", ["self"]):
+        if base == ("path", ["self"]) and not ("self" in env and env["self"][0] == "structlocal"):
             if ctx.self_mode and ctx.self_mode[0] == "nt":
                 if name != "0":
                     raise ShapeError(f"{ctx.what}: self.{name} on a tuple struct")
@@ -1289,6 +1294,9 @@ class StmtMixin:
                 v = self.tr(e[1], env, ctx)
                 if ctx.ret is not None:
                     self.unify(v.ty, ctx.ret, ctx.what)
+                if getattr(ctx, "ret_with_self", False):
+                    sv = self.struct_value(env["self"], ctx)
+                    return V(f"({self.value(v, ctx)}, {sv.lean})", ("tuple", [v.ty, sv.ty]), v.ok)
                 return v
             if e[0] == "assign":
                 return self.st_assign(e, env, ctx, cont)
@@ -1721,6 +1729,71 @@ class FnMixin:
         self.in_progress.discard(key)
         self.done[key] = info
         self.order.append(key)
+        return info
+
+    def translate_mutfn(self, key):
+        """a `&mut self` method of a plain struct with integer fields, as a pure function from the fields
+        to (result, new struct)"""
+        dkey = ("mut",) + key
+        if dkey in self.done:
+            return self.done[dkey]
+        if key not in self.items.fns:
+            raise ShapeError(f"function {key[0]}::{key[1]} not found in the scanned files")
+        decl = self.items.fns[key]
+        what = f"{decl.where}: fn {decl.impl}::{decl.name}"
+        ctx = Ctx(what, decl.impl)
+        self_kind, params = parse_params(decl, self.items)
+        if self_kind is None or "mut" not in self_kind or decl.impl not in self.items.structs or \
+                self.items.structs[decl.impl][0] != "named":
+            raise ShapeError(f"{what}: not a `&mut self` method of a plain struct")
+        fields, plist = {}, []
+        for fname, fty, isref in self.struct_fields(decl.impl, what):
+            if isref:
+                raise ShapeError(f"{what}: reference field {fname}")
+            ty = self.conv_type(fty, what, decl.impl)
+            fields[fname] = ("self_" + fname, ty)
+            plist.append(("self_" + fname, ty))
+        env = {"self": ("structlocal", decl.impl, fields)}
+        for pn, pty in params:
+            self.check_local(pn, ctx)
+            ty = self.conv_type(pty, f"{what}: parameter {pn}", decl.impl)
+            env[pn] = ("val", lname(pn), ty)
+            plist.append((lname(pn), ty))
+        ctx.ret = self.conv_type(parse_type(decl.ret, what, self.items), what, decl.impl) if decl.ret else ("unit",)
+        ctx.ret_with_self = True
+        body = parse_fn_body(decl, self.items)
+
+        def to_returns(e):
+            if e is None:
+                return [("expr", ("return", ("tuple", [])))]
+            if e[0] == "if":
+                return [("expr", ("if", e[1], ("block", *to_block(e[2])), ("block", *to_block(e[3]))))]
+            if e[0] == "block":
+                return list(e[1]) + to_returns(e[2])
+            return [("expr", ("return", e))]
+
+        def to_block(b):
+            if b is None:
+                return ([("expr", ("return", ("tuple", [])))], None)
+            if b[0] == "block":
+                return (list(b[1]) + to_returns(b[2]), None)
+            return (to_returns(b), None)
+
+        def fell_off(_env):
+            raise ShapeError(f"{what}: control reaches the end without a value")
+        v = self.run(list(body[1]) + to_returns(body[2]), env, ctx, fell_off)
+        info = FnInfo(decl.impl + "_" + decl.name)
+        info.params = plist
+        info.self_fields = [f for f in fields]
+        info.ret = v.ty
+        lean = self.value(v, ctx)
+        if lean.startswith("(") and lean.endswith(")") and _balanced(lean[1:-1]):
+            lean = lean[1:-1]
+        info.body = self.resolve_placeholders(lean, what)
+        info.okbody = self.resolve_placeholders(v.ok, what) if v.ok else None
+        info.doc = f"`{decl.impl}::{decl.name}` ({decl.where}), as a function from the fields to (result, new value)"
+        self.done[dkey] = info
+        self.order.append(dkey)
         return info
 
     # ------------------------------------------------------------------ fragments
